@@ -68,6 +68,9 @@ const DTD_BATTERY: &[&str] = &[
     "//@*", "//*/@*", "count(//@*)", "name(//*/@*)", "string(//@*)", "//*[@*]", "//node()", "//text()", "string(/)", "//*", "//*/@*[1]", "//*/@*[last()]", "name((//@*)[1])",
     "name((//@*)[last()])", "count(//*[@*])", "//@*[.!='']", "/*/@*", "name(/*/@*)", "concat(name(/*/@*[1]),'|',name(/*/@*[2]))", "//comment()|//processing-instruction()", "//*[1]/@*",
     "sum(//@*)", "//*[@*][1]", "string(//*/@*[2])",
+    // string-values of every attribute and of every text node (entity expansion in both contexts, either order)
+    "count(//@*[normalize-space(.) != .])", "count(//text()[normalize-space(.) != .])", "count(//@*[contains(., '\t') or contains(., '\n')])", "count(//text()[contains(., '\t') or contains(., '\n')])",
+    "string-length(string(/))", "count(//*[. = @*])", "//@*[string-length(.) > 0]", "//text()[string-length(.) > 0]",
 ];
 const PROBES: &[&str] = &["position()", "last()", "position()+last()", "//*[position()=last()]", "count(//*[last()])", "(//*)[last()]", "//*[1]", "string(position())"];
 
